@@ -593,6 +593,12 @@ def select__distinct_values(self: XPathFunction, context: ta.ContextType = None)
                     yield value
                     results.append(value)
 
+            elif isinstance(value, UntypedAtomic):
+                # untyped values are compared as strings (never cast to the type of another item)
+                if value.value not in results:
+                    yield value
+                    results.append(value.value)
+
             elif value not in results:
                 yield value
                 results.append(value)
